@@ -326,10 +326,20 @@ func (c *child) barrier() error {
 		c.bseq = (c.bseq + 1) & 0xffff
 		seq := c.bseq
 		msg := wire.BuildICMPv4Echo(8, barrierID, uint16(seq), nil)
-		c.Inject(nic, 0x0800, [][]byte{ipWrap(4, nic, 1, msg, barrierID)})
-		_, ok := c.Wait(func(e *emit) bool {
-			return e.d.kind == "icmp4" && e.d.itype == 0 && e.d.ident == barrierID && e.d.iseq == seq
-		}, c.wait)
+		// the stack answers echo requests only while fewer than ten are pending (a burst may make it drop
+		// ours): repeat the request until it is answered or the deadline passes
+		deadline := time.Now().Add(c.wait)
+		ok := false
+		for try := 100 * time.Millisecond; !ok && !c.wedged && time.Now().Before(deadline); try *= 2 {
+			c.Inject(nic, 0x0800, [][]byte{ipWrap(4, nic, 1, msg, barrierID)})
+			w := time.Until(deadline)
+			if w > try {
+				w = try
+			}
+			_, ok = c.Wait(func(e *emit) bool {
+				return e.d.kind == "icmp4" && e.d.itype == 0 && e.d.ident == barrierID && e.d.iseq == seq
+			}, w)
+		}
 		if !ok {
 			return fmt.Errorf("barrier echo on NIC %d not answered within %v", nic, c.wait)
 		}
@@ -403,7 +413,7 @@ func (c *child) classify(obs map[string]bool) {
 // noise frames that happen to carry a tag are not blamed on another case.
 func seqBases(slot int) []uint32 {
 	return []uint32{uint32(1000 + slot), uint32(0x01000000 + slot*4099), uint32(0x02000000 + slot*4099), uint32(5000 + slot),
-		uint32(0x03000000 + slot*4099), uint32(0x04000000 + slot*4099)}
+		uint32(0x03000000 + slot*4099), uint32(0x04000000 + slot*4099), uint32(0x05000000 + slot*4099)}
 }
 
 func (c *child) ownerTCP(d *dec) (int, bool) {
@@ -522,6 +532,11 @@ func (c *child) runCase(cs *Case, wantHex, dry bool) M {
 		}
 	case "tseq":
 		c.runTSeq(cs, slot, send, dry)
+	case "ierr":
+		if err := c.runIErr(cs, slot, send, dry); err != nil {
+			res["err"] = err.Error()
+			return res
+		}
 	case "eseq":
 		if err := c.runESeq(cs, slot, send, dry); err != nil {
 			res["err"] = err.Error()
@@ -1141,5 +1156,179 @@ func (c *child) runESeq(cs *Case, slot int, send func(pkt), dry bool) error {
 			c.Inject(1, 0x0800, [][]byte{k.seg(wire.RST, B+off, 0, nil, nil)})
 		}
 	}
+	return nil
+}
+
+// ------------------------------------------------ ICMP errors aimed at live state
+func tsvalOf(e *emit) uint32 {
+	var t wire.TCP
+	var err error
+	if e.d.v == 4 {
+		ip, e1 := wire.ParseIPv4(e.B)
+		if e1 != nil {
+			return 0
+		}
+		t, err = wire.ParseTCP(ip.Src, ip.Dst, ip.Payload)
+	} else {
+		ip, e1 := wire.ParseIPv6(e.B)
+		if e1 != nil {
+			return 0
+		}
+		t, err = wire.ParseTCP(ip.Src, ip.Dst, ip.Payload)
+	}
+	if err != nil {
+		return 0
+	}
+	return t.Opts.TSVal
+}
+
+// runIErr puts a socket of the stack into the state named by the case, then
+// injects one ICMP error that quotes a datagram of that socket.  Nothing is
+// cleaned up: what the error does shows at the next retransmission timeout,
+// which the parent waits for before the probes.
+func (c *child) runIErr(cs *Case, slot int, send func(pkt), dry bool) error {
+	f := cs.C
+	v, tgt, ty := gi(f, "v"), gs(f, "tgt"), gs(f, "ty")
+	peer, own, other := addrs(v, 1)
+	tag := tagPort(slot)
+	np := tcpip.NetworkProtocolNumber(netProto(v))
+	qsrc, qproto, qseq := lstPort, uint8(6), uint32(1)
+	switch tgt {
+	case "est", "est-ts", "est-sack":
+		if dry {
+			break
+		}
+		k := &conn{v: v, nic: 1, sport: tag, dport: lstPort, iss: uint32(0x05000000 + slot*4099)}
+		opts := wire.OptMSS(1400)
+		if tgt == "est-ts" {
+			opts = append(append(opts, 1, 1), wire.OptTS(1, 0)...)
+		}
+		if tgt == "est-sack" {
+			opts = append(opts, 1, 1, 4, 2)
+		}
+		c.Inject(1, netProto(v), [][]byte{k.seg(wire.SYN, k.iss, 0, opts, nil)})
+		e, ok := c.Wait(matchTCP(k, func(d *dec) bool {
+			return d.flags&(wire.SYN|wire.ACK|wire.RST) == wire.SYN|wire.ACK && d.ack == k.iss+1
+		}), c.wait)
+		if !ok {
+			return fmt.Errorf("handshake: no SYN-ACK for port %d within %v", tag, c.wait)
+		}
+		k.irs, k.rcv, k.snd = e.d.seq, e.d.seq+1, k.iss+1
+		var so []byte
+		if tgt == "est-ts" {
+			so = append([]byte{1, 1}, wire.OptTS(2, tsvalOf(e))...)
+		}
+		c.Inject(1, netProto(v), [][]byte{k.seg(wire.ACK, k.snd, k.rcv, so, nil)})
+		if gs(f, "fl") == "inflight" { // the echo of our data stays unacknowledged
+			c.Inject(1, netProto(v), [][]byte{k.seg(wire.PSH|wire.ACK, k.snd, k.rcv, so, wire.Pattern(slot, 16))})
+			if _, ok := c.Wait(matchTCP(k, func(d *dec) bool { return len(d.payload) > 0 }), c.wait); !ok {
+				return fmt.Errorf("the echo server sent no data on port %d within %v", tag, c.wait)
+			}
+		}
+		qseq = k.rcv
+	case "halfopen":
+		if dry {
+			break
+		}
+		k := &conn{v: v, nic: 1, sport: tag, dport: lstPort, iss: uint32(0x05000000 + slot*4099)}
+		c.Inject(1, netProto(v), [][]byte{k.seg(wire.SYN, k.iss, 0, wire.OptMSS(1400), nil)})
+		e, ok := c.Wait(matchTCP(k, func(d *dec) bool { return d.flags&(wire.SYN|wire.ACK|wire.RST) == wire.SYN|wire.ACK }), c.wait)
+		if !ok {
+			return fmt.Errorf("no SYN-ACK for port %d within %v", tag, c.wait)
+		}
+		qseq = e.d.seq
+	case "synsent":
+		if dry {
+			break
+		}
+		ep, err := c.h.S.NewEndpoint(tcp.ProtocolNumber, np, &waiter.Queue{})
+		if err != nil {
+			vh.Fatal("tcp endpoint: %v", err)
+		}
+		if err := ep.Connect(tcpip.FullAddress{NIC: 1, Addr: tcpip.Address(peer), Port: uint16(tag)}); err != nil && err != tcpip.ErrConnectStarted {
+			return fmt.Errorf("Connect: %v", err)
+		}
+		e, ok := c.Wait(func(e *emit) bool {
+			return e.d.kind == "tcp" && e.d.v == v && e.d.dport == tag && e.d.flags&(wire.SYN|wire.ACK) == wire.SYN
+		}, c.wait)
+		if !ok {
+			return fmt.Errorf("the stack sent no SYN within %v", c.wait)
+		}
+		qsrc, qseq = e.d.sport, e.d.seq
+	case "udp-conn":
+		qproto = 17
+		if dry {
+			break
+		}
+		ep, err := c.h.S.NewEndpoint(udp.ProtocolNumber, np, &waiter.Queue{})
+		if err != nil {
+			vh.Fatal("udp endpoint: %v", err)
+		}
+		if err := ep.Connect(tcpip.FullAddress{NIC: 1, Addr: tcpip.Address(peer), Port: uint16(tag)}); err != nil {
+			return fmt.Errorf("udp Connect: %v", err)
+		}
+		if _, _, err := ep.Write(tcpip.SlicePayload(wire.Pattern(slot, 8)), tcpip.WriteOptions{}); err != nil {
+			return fmt.Errorf("udp Write: %v", err)
+		}
+		e, ok := c.Wait(func(e *emit) bool { return e.d.kind == "udp" && e.d.dport == tag }, c.wait)
+		if !ok {
+			return fmt.Errorf("the stack sent no datagram within %v", c.wait)
+		}
+		qsrc = e.d.sport
+		defer func() { // the application looks at its socket afterwards
+			c.readQueued(ep, 4)
+			ep.Close()
+		}()
+	case "udp-bound":
+		qsrc, qproto = udpPort, 17
+	case "none":
+		qsrc = 9999
+	}
+	if gs(f, "sq") == "wrong" {
+		qseq += 0x10000000
+	}
+	// the quoted datagram: from the stack to the peer
+	var l4 []byte
+	if qproto == 6 {
+		l4 = wire.BuildTCP(own, peer, wire.TCPFields{SrcPort: uint16(qsrc), DstPort: uint16(tag), Seq: qseq, Flags: wire.ACK, Window: 1000}, wire.Pattern(slot, 8))
+	} else {
+		l4 = wire.BuildUDP(own, peer, uint16(qsrc), uint16(tag), wire.Pattern(slot, 20), wire.UDPOpts{})
+	}
+	var quote []byte
+	ihl := 20
+	if v == 4 {
+		quote = wire.BuildIPv4(own, peer, qproto, l4, wire.IPv4Opts{ID: 9})
+	} else {
+		quote, ihl = wire.BuildIPv6(own, peer, qproto, l4, 64), 40
+	}
+	switch gs(f, "q") {
+	case "t8":
+		quote = quote[:ihl+8]
+	case "t4":
+		quote = quote[:ihl+4]
+	case "ip":
+		quote = quote[:ihl]
+	}
+	mtu := gi(f, "mtu")
+	var p []byte
+	if v == 4 {
+		tc := map[string][2]byte{"net": {3, 0}, "host": {3, 1}, "proto": {3, 2}, "port": {3, 3}, "big": {3, 4}, "admin": {3, 13}, "ttl": {11, 0}, "param": {12, 0}}[ty]
+		m := make([]byte, 8)
+		m[0], m[1] = tc[0], tc[1]
+		if ty == "big" {
+			be.PutUint16(m[6:], uint16(mtu))
+		}
+		m = append(m, quote...)
+		be.PutUint16(m[2:], ^wire.Sum1071(m, 0))
+		p = wire.BuildIPv4(other, own, 1, m, wire.IPv4Opts{ID: uint16(slot)})
+	} else {
+		tc := map[string][2]byte{"noroute": {1, 0}, "port": {1, 4}, "big": {2, 0}, "ttl": {3, 0}, "param": {4, 1}}[ty]
+		var rest [4]byte
+		if ty == "big" {
+			be.PutUint32(rest[:], uint32(int32(mtu)))
+		}
+		p = wire.BuildIPv6(other, own, 58, wire.BuildICMPv6(other, own, tc[0], tc[1], rest, quote), 64)
+	}
+	send(pkt{Nic: 1, Proto: netProto(v), Parts: [][]byte{p}})
 	return nil
 }
